@@ -10,10 +10,13 @@ import (
 	"github.com/orda-io/orda/client/pkg/model"
 	svrConstant "github.com/orda-io/orda/server/constants"
 	"github.com/orda-io/orda/server/managers"
+	"google.golang.org/grpc/codes"
 	"google.golang.org/grpc/reflection"
+	"google.golang.org/grpc/status"
 	"net"
 	"os"
 	"os/signal"
+	"runtime/debug"
 	"sync"
 	"syscall"
 	"time"
@@ -75,7 +78,7 @@ func (its *OrdaServer) Start() errors.OrdaError {
 	if err != nil {
 		return errors.ServerInit.New(its.ctx.L(), "fail to listen RPC:"+err.Error())
 	}
-	its.rpcServer = grpc.NewServer()
+	its.rpcServer = its.newRPCServer()
 	reflection.Register(its.rpcServer)
 	its.service = service.NewOrdaService(its.managers)
 	model.RegisterOrdaServiceServer(its.rpcServer, its.service)
@@ -99,6 +102,27 @@ func (its *OrdaServer) Start() errors.OrdaError {
 	its.ctx.L().Infof("%s Started at %s %s", server, time.Now().String(), banner)
 	its.ctx.L().Info("start Orda server successfully")
 	return nil
+}
+
+// newRPCServer creates the gRPC server. A panic of a handler is recovered, logged and answered with an RPC error:
+// unrecovered, it would end the process, i.e., the service for every client.
+func (its *OrdaServer) newRPCServer() *grpc.Server {
+	return grpc.NewServer(grpc.UnaryInterceptor(its.recoverHandler))
+}
+
+func (its *OrdaServer) recoverHandler(
+	goCtx gocontext.Context,
+	req interface{},
+	info *grpc.UnaryServerInfo,
+	handler grpc.UnaryHandler,
+) (res interface{}, err error) {
+	defer func() {
+		if r := recover(); r != nil {
+			its.ctx.L().Errorf("recover panic of %s [%v]: %v", info.FullMethod, r, string(debug.Stack()))
+			res, err = nil, status.Errorf(codes.Internal, "panic in %s: %v", info.FullMethod, r)
+		}
+	}()
+	return handler(goCtx, req)
 }
 
 // Close closes all the server threads.
